@@ -52,6 +52,7 @@ var c10Lookups = map[string]lookupSpec{
 	"leveldb.DB.Get":          {[]aval{avNonNil, avNil}, []aval{avNil, avNonNil}},
 	"leveldb.Transaction.Get": {[]aval{avNonNil, avNil}, []aval{avNil, avNonNil}},
 	"pebble.DB.Get":           {[]aval{avNonNil, avNonNil, avNil}, []aval{avNil, avNil, avNonNil}},
+	"pebble.Batch.Get":        {[]aval{avNonNil, avNonNil, avNil}, []aval{avNil, avNil, avNonNil}}, // indexed batch: same contract (Batch.Get → DB.getInternal)
 }
 
 // c10Invokers call their function argument synchronously and return its error.
